@@ -2,6 +2,7 @@ import CssVerif.Model.Codec
 import CssVerif.Model.CodecInc
 import CssVerif.Model.CodecInner
 import CssVerif.Lemmas.CodecEncInner
+import CssVerif.Model.CodecStream
 open CssVerif.Proto CssVerif.Codec
 
 def showEnc : Enc → String
@@ -116,6 +117,26 @@ def cenc (given : Option Name) (chunks : List (List Nat)) : String :=
   let fin := estep cpyInnerEnc r.1 [] true
   " ".intercalate r.2 ++ " | " ++ encCps fin.2 ++ " | " ++ encCps (encodeOneShot cpyInnerEnc given chunks.flatten)
 
+/-- `sread given force chunk…`: `newchars` of every turn of the `read()` loop of the CSS stream reader over
+CPython's inner decoders | 1 if the reader is still waiting at the end | one-shot -/
+def sread (given : Option Name) (force : Bool) (chunks : List (List Nat)) : String :=
+  let rec go (s : RSt) (cs : List (List Nat)) (acc : List String) : RSt × List String :=
+    match cs with
+    | [] => (s, acc.reverse)
+    | c :: cs => let r := rstep cpyInner force s c; go r.1 cs (encCps r.2 :: acc)
+  let r := go (.waiting given []) chunks []
+  " ".intercalate r.2 ++ " | " ++ (match r.1 with | .waiting _ _ => "W" | .reading _ _ => "R") ++ " | " ++
+    encCps (oneShot cpyInner given force chunks.flatten)
+
+def swrite (given : Option Name) (chunks : List (List Nat)) : String :=
+  let rec go (s : ESt) (cs : List (List Nat)) (acc : List String) : ESt × List String :=
+    match cs with
+    | [] => (s, acc.reverse)
+    | c :: cs => let r := wstep cpyInnerEnc s c; go r.1 cs (encCps r.2 :: acc)
+  let r := go (.waiting given []) chunks []
+  " ".intercalate r.2 ++ " | " ++ (match r.1 with | .waiting _ _ => "W" | .encoding _ _ => "E") ++ " | " ++
+    encCps (encodeOneShot cpyInnerEnc given chunks.flatten)
+
 def handle (line : String) : String :=
   match words line with
   | ["detect", f, b] => match decCps b with
@@ -143,6 +164,16 @@ def handle (line : String) : String :=
       let given := if g == "none" then some none else (decCps g).map some
       match given, chunks.mapM decCps with
       | some given, some cs => if cs.all isBytes then cdec given (f == "1") cs else "bad-op"
+      | _, _ => "bad-op"
+  | "sread" :: g :: f :: chunks =>
+      let given := if g == "none" then some none else (decCps g).map some
+      match given, chunks.mapM decCps with
+      | some given, some cs => if cs.all isBytes then sread given (f == "1") cs else "bad-op"
+      | _, _ => "bad-op"
+  | "swrite" :: g :: chunks =>
+      let given := if g == "none" then some none else (decCps g).map some
+      match given, chunks.mapM decCps with
+      | some given, some cs => swrite given cs
       | _, _ => "bad-op"
   | "cenc" :: g :: chunks =>
       let given := if g == "none" then some none else (decCps g).map some
